@@ -20,12 +20,13 @@ AnyD == [k |-> "any", t |-> "dynamic"]
 VarS == Blk(<<L(FALSE)>>, Body([type |-> A(FALSE) @@ [cons |-> [k |-> "typeDecl"]], default |-> A(FALSE)], EmptyFn, NoExt), <<>>)
         @@ [addr |-> AddrB(<< <<"static", "var">>, <<"label", 0>> >>, "variable", TRUE, "type", FALSE, FALSE, FALSE)]
 ResS(un) == Blk(<<L(TRUE), L(FALSE)>>, Body([top |-> A(FALSE)], EmptyFn, [count |-> TRUE, forEach |-> TRUE, dyn |-> FALSE]),
-                << [lk |-> << <<0, "x">> >>, ak |-> <<>>, body |-> Body([a |-> A(FALSE), l |-> A(FALSE)], EmptyFn, NoExt)] >>)
+                << [lk |-> << <<0, "x">> >>, ak |-> <<>>, body |-> Body([a |-> A(FALSE), l |-> A(FALSE), rf |-> A(FALSE) @@ [cons |-> [k |-> "ref"]]], EmptyFn, NoExt)] >>)
             @@ [addr |-> AddrB(<< <<"label", 0>>, <<"label", 1>> >>, "resource", TRUE, "", FALSE, TRUE, un)]
-LocS(asRef, asType) == Blk(<<>>, [attrs |-> EmptyFn, blocks |-> EmptyFn, any |-> TRUE, ext |-> NoExt, link |-> FALSE,
+SubS == Blk(<<>>, Body([x |-> A(FALSE) @@ [cons |-> AnyD]], EmptyFn, NoExt), <<>>)
+LocS(asRef, asType) == Blk(<<>>, [attrs |-> EmptyFn, blocks |-> [sub |-> SubS], any |-> TRUE, ext |-> NoExt, link |-> FALSE,
                                    anyaddr |-> AddrA(<< <<"static", "loc">>, <<"attrname", "">> >>, "local", asRef, asType)], <<>>)
 Sel == [req |-> FALSE, opt |-> TRUE, comp |-> FALSE, dep |-> TRUE, depr |-> FALSE, dflt |-> Nil]
-ModS == Blk(<<L(FALSE)>>, Body([source |-> Sel], EmptyFn, NoExt),
+ModS == Blk(<<L(FALSE)>>, Body([source |-> Sel @@ [cons |-> [k |-> "lit", t |-> "string"]]], EmptyFn, NoExt),
             << [lk |-> <<>>, ak |-> << <<"source", Str("s1")>> >>, body |-> Body([in1 |-> A(FALSE)], EmptyFn, NoExt) @@ [tas |-> <<[addr |-> <<"module", "x">>, scope |-> "module", typ |-> "string"]>>]],
                [lk |-> <<>>, ak |-> << <<"source", Str("s2")>> >>, body |-> Body([in2 |-> A(FALSE)], EmptyFn, NoExt) @@ [tas |-> <<[addr |-> <<"module", "y">>, scope |-> "module", typ |-> "number"]>>]] >>)
         @@ [addr |-> AddrB(<< <<"static", "module">>, <<"label", 0>> >>, "module", TRUE, "", FALSE, FALSE, FALSE)]
@@ -50,6 +51,8 @@ Pool == { B("var", <<"a">>, <<AtV("type", Ty("string"))>>), B("var", <<"b">>, <<
           B("var", <<>>, <<>>), B("var", <<"d", "extra">>, <<AtV("type", Str("notatype"))>>),
           B("res", <<"x", "n1">>, <<AtV("a", Str("v")), AtV("count", [k |-> "num", v |-> "2"]), At("zz")>>), B("res", <<"y", "n2">>, <<AtV("for_each", ListV)>>), B("res", <<"x">>, <<>>),
           B("loc", <<>>, <<AtV("s", Str("x")), AtV("n", [k |-> "num", v |-> "1"]), AtV("l", ListV), AtV("o", ObjV), AtV("r", [k |-> "ref", v |-> "var.a"]), At("b")>>),
+          B("loc", <<>>, <<AtV("s2", Str("y")), B("sub", <<>>, <<AtV("x", [k |-> "ref", v |-> "var.b"])>>)>>),
+          B("res", <<"x", "n3">>, <<AtV("rf", [k |-> "ref", v |-> "var.a"])>>), B("res", <<"x", "n4">>, <<AtV("rf", [k |-> "tmplref", v |-> "var.a"])>>),
           B("mod", <<"m1">>, <<AtV("source", Str("s1")), At("in1")>>), B("mod", <<"m2">>, <<AtV("source", Str("s2"))>>), B("mod", <<"m3">>, <<AtV("source", Str("zz"))>>),
           B("byval", <<>>, <<AtV("name", Str("n1"))>>), B("byval", <<>>, <<>>), B("byval", <<>>, <<AtV("name", [k |-> "num", v |-> "5"])>>),
           B("outer", <<>>, <<B("innerb", <<"k">>, <<AtV("w", Str("s"))>>), B("innerb", <<>>, <<>>)>>),
